@@ -753,7 +753,7 @@ KINDS = (["add_edge"] * 8 + ["add_edges"] * 3 + ["add_node"] * 2 + ["add_nodes"]
 @st.composite
 def op_strategy(draw, weighted, kinds, t_strategy=None, clear=True):
     # clear() is rare: it wipes the history that makes later steps interesting
-    k = "clear" if (clear and draw(st.integers(0, 59)) == 59) else draw(st.sampled_from(kinds))
+    k = "clear" if (clear and draw(st.integers(0, 39)) == 39) else draw(st.sampled_from(kinds))
     field = st.sampled_from(S.ATTRS)
     # operations on hyperedges / nodes mostly aim at existing ones (the rest are
     # intended rejections or fresh insertions)
@@ -802,6 +802,13 @@ def op_strategy(draw, weighted, kinds, t_strategy=None, clear=True):
         op.update(field=draw(field), value=draw(S.json_values))
     elif k == "set_hg_metadata":
         op.update(meta=draw(S.metadata()))
+    elif k == "clear":
+        # the object is rebuilt right after a clear(): counters / free lists / tables that
+        # clear() forgot to reset only matter once new records arrive
+        n_new = draw(st.integers(2, 5))
+        op["follows"] = [{"op": "add_edge", "edge": draw(edge_spec(["fresh"], t_strategy)),
+                          "w": draw(weight_for(weighted)), "meta": draw(S.opt_metadata())}
+                         for _ in range(n_new)]
     if k in ("add_node", "add_nodes", "add_edge", "add_edges") and draw(st.integers(0, 3)) == 0:
         # an in-place metadata edit on an item of this very insertion, executed as the next
         # step (catches dicts shared between the items of one batch)
@@ -840,7 +847,9 @@ def histories(draw, max_steps, kinds=None, t_strategy=None, clear=True,
     ops = []
     for op in drawn:
         follow = op.pop("follow", None)
+        follows = op.pop("follows", [])
         ops.append(op)
         if follow is not None:
             ops.append(follow)
+        ops.extend(follows)
     return {"weighted": weighted, "universe": universe, "init": init, "ops": ops}
